@@ -71,6 +71,10 @@ def cases(tier, rnd):
             for v in (0, 1, 2, 0x7f, 0x80, 0xff):
                 b = bytearray(valid)
                 if o < len(b): b[o] = v; cs.append(with_replies(rnd, kind, [login, bytes(b)]))
+        for o in (75, 77, 79, 89, 135):      # two neighbouring bytes at their extremes together (a 16-bit field all ones / all zeros)
+            for v in (b"\xff\xff", b"\0\0", b"\xff\x7f", b"\0\x80"):
+                b = bytearray(valid)
+                if o + 2 <= len(b): b[o:o + 2] = v; cs.append(with_replies(rnd, kind, [login, bytes(b)]))
         for o in (89, 93, 97):          # time fields at the edges of what datetime.time accepts
             for secs in (86399, 86400, 2 ** 31 - 1, 2 ** 32 - 1):
                 b = bytearray(valid); b[o:o + 4] = secs.to_bytes(4, "little"); cs.append(with_replies(rnd, kind, [login, bytes(b)]))
